@@ -268,6 +268,11 @@ def node_ids(spec):
 
 def make_dist(d, kind="scripted"):
     C = classes()
+    if "trainable" in d:  # trainable (zero-order hold) delay: [delay, min, max] in units of U
+        from rex.base import TrainableDist
+
+        dl, lo, hi = d["trainable"]
+        return TrainableDist.create(delay=dl * U, min=lo * U, max=hi * U, interp=d.get("interp", "zoh"))
     if "dist" in d:  # decimal family: a real (static) distribution, times in seconds
         import distrax
 
@@ -305,7 +310,7 @@ def build_nodes(spec, xp="np", trace=None, clock="SIM", vtime=None):
         nodes[e["n"]].connect(
             nodes[e["o"]],
             blocking=bool(e.get("blocking", False)),
-            delay=(comm.get("expected", comm["nominal"]) * U) if "dist" not in comm else comm["dist"][1],
+            delay=(comm["trainable"][1] * U) if "trainable" in comm else ((comm.get("expected", comm["nominal"]) * U) if "dist" not in comm else comm["dist"][1]),
             delay_dist=make_dist(comm),
             window=int(e.get("window", 1)),
             skip=bool(e.get("skip", False)),
